@@ -211,7 +211,7 @@ defined with a Uniform prior and then redefined (later dict entry wins) as Fixed
 def exGood : PriorInput :=
   { modelOk := true, parsStatus := .ok, polyTrend := some 2, offsetsIterable := true,
     pars := [⟨.K, some (Dim.vel 0), .otherRV⟩, ⟨.P, some Dim.time1, .otherRV⟩, ⟨.e, some Dim.one, .otherRV⟩,
-             ⟨.omega, some Dim.angle1, .nonRV⟩, ⟨.M0, some Dim.angle1, .nonRV⟩, ⟨.s, some (Dim.vel 0), .noOwner⟩,
+             ⟨.omega, some Dim.angle1, .unnamedOp⟩, ⟨.M0, some Dim.angle1, .unnamedOp⟩, ⟨.s, some (Dim.vel 0), .noOwner⟩,
              ⟨.K, some (Dim.vel 0), .fcm⟩, ⟨.v 0, some (Dim.vel 0), .normal⟩, ⟨.v 1, some (Dim.vel 1), .normal⟩],
     offsets := [⟨.dv0 1, some (Dim.vel 0), .normal⟩] }
 
@@ -222,7 +222,7 @@ example : validate { exGood with pars := exGood.pars.filter (fun p => p.name ≠
 example : validate { exGood with offsets := [⟨.dv0 2, some (Dim.vel 0), .normal⟩] } = .error .value := by decide
 example : validate { exGood with offsets := [⟨.dv0 1, some (Dim.vel 0), .otherRV⟩] } = .error .value := by decide
 example : validate { exGood with pars := exGood.pars ++ [⟨.v 1, some (Dim.vel 0), .normal⟩] } = .error .value := by decide
-example : validate { exGood with pars := exGood.pars ++ [⟨.v 0, some (Dim.vel 0), .nonRV⟩] } = .error .unspecified := by decide
+example : validate { exGood with pars := exGood.pars ++ [⟨.v 0, some (Dim.vel 0), .unnamedOp⟩] } = .error .unspecified := by decide
 example : validateData (.multi [.rv false, .rv false]) 1 = .ok 2 := by decide
 example : validateData (.multi [.rv false, .rv false, .rv false]) 1 = .error .value := by decide
 example : validateData (.multi [.rv false, .rv true, .notRV]) 2 = .error .notimpl := by decide
